@@ -62,7 +62,7 @@ pub assume_specification<T, A: std::alloc::Allocator>[ std::collections::VecDequ
 // ---- TRUSTED: <[T]>::binary_search, stated only as far as std guarantees WITHOUT knowing the slice is sorted: a hit is a real
 // position of an element that compares Equal (for a type that obeys vstd's cmp laws — asserted in this repo only for StreamId,
 // whose Eq and Ord are both the packed value — Equal means the same value); a miss says nothing about absence.
-pub assume_specification<T: Ord>[ <[T]>::binary_search ](s: &[T], x: &T) -> (r: Result<usize, usize>)
+pub assume_specification<T: Ord>[ <[T]>::binary_search ](s: &[T], x: &T) -> (r: std::result::Result<usize, usize>)
     ensures match r { Ok(i) => i < s@.len() && (vstd::laws_cmp::obeys_cmp_spec::<T>() ==> s@[i as int] == *x), Err(i) => i <= s@.len() };
 // ---- TRUSTED: slice membership for element types whose `==` is structural
 pub assume_specification<T: PartialEq>[ <[T]>::contains ](s: &[T], x: &T) -> (r: bool)
